@@ -94,12 +94,54 @@ def rule_F2(ctx):
     ok = any(isinstance(c, ast.Call) and norm(c) == "self.reset_state()" for c in own_nodes(ii))
     _ob(ctx, "F2", ii, "IIR: the constructor initialises its state through reset_state (init = reset by construction)", ok, "", "IirFilter:init-calls-reset", IIR, "IirFilter.__init__")
     ir = _fn(ctx, IIR, "IirFilter.reset_state", "F2")
-    t = full(ir)
-    ok = "np.zeros(self.n_x_prev, dtype=np.float64)" in t and "np.zeros(self.n_y_prev, dtype=np.float64)" in t and "self.x_prev = x_prev.astype(np.float64)" in t \
-        and "self.y_prev = y_prev.astype(np.float64)" in t
-    _ob(ctx, "F2", ir, "IIR: reset_state installs fresh zero histories of the filter's order (new arrays, copied)", ok, "", "IirFilter:reset", IIR, "IirFilter.reset_state")
-    t = full(ii)
-    ok = "self.n_x_prev = max(0, len(B) - 1)" in t and "self.n_y_prev = max(0, len(A) - 1)" in t
+    # interpreted for the call without arguments (what the constructor and the flush do): both histories become new float64 zero
+    # arrays of the filter's order (no code is run; kwargs.get(..) is taken to give None)
+    from .sem import Mini, Sym, np_canon as _npc
+    mi = Mini(ctx, None, special=lambda node, interp: ("<none>" if False else None))
+    mi.env = {}
+    mi.assume = lambda text: None
+
+    def _sp(node, interp):
+        if isinstance(node, ast.Call) and isinstance(node.func, ast.Attribute) and node.func.attr == "get" and norm(node.func.value) == "kwargs":
+            return _NONE
+        return None
+
+    class _N:  # a None that Mini's special hook can return (the hook treats a literal None as "no answer")
+        pass
+    _NONE = _N()
+    mi.special = _sp
+    mi.assume = lambda text: (False if mi.env.get(text) is _NONE else None)
+    mi.run([st for st in ir.body if not (isinstance(st, ast.Expr) and isinstance(st.value, ast.Constant))])
+    got = {}
+    for k_ in ("self.x_prev", "self.y_prev"):
+        v_ = mi.env.get(k_)
+        try:
+            e_ = ast.parse(str(v_), mode="eval").body if isinstance(v_, Sym) else None
+            if e_ is not None:
+                # locals holding an opaque value are read through (one level)
+                class _S(ast.NodeTransformer):
+                    def visit_Name(self, n_):
+                        w_ = mi.env.get(n_.id)
+                        if isinstance(w_, Sym) and str(w_) != n_.id:
+                            try:
+                                return ast.parse(str(w_), mode="eval").body
+                            except SyntaxError:
+                                return n_
+                        return n_
+                e_ = _S().visit(e_)
+                ast.fix_missing_locations(e_)
+            got[k_] = _npc(e_) if e_ is not None else str(v_)
+        except SyntaxError:
+            got[k_] = str(v_)
+    ok = got.get("self.x_prev") in ("np.zeros(self.n_x_prev).astype(np.float64)", "np.zeros(self.n_x_prev)") \
+        and got.get("self.y_prev") in ("np.zeros(self.n_y_prev).astype(np.float64)", "np.zeros(self.n_y_prev)")
+    _ob(ctx, "F2", ir, "IIR: reset_state installs fresh zero histories of the filter's order (new arrays, copied)", ok, "" if ok else f"{got}", "IirFilter:reset", IIR, "IirFilter.reset_state")
+    from .sem import straightline_ex as _slf
+    from ..core.terms import Evaluator as _EvF
+    sli = _slf([st for st in ii.body if not (isinstance(st, ast.Expr) and isinstance(st.value, ast.Constant))])
+    bp_, ap_ = ii.args.args[1].arg, ii.args.args[2].arg
+    tk = lambda e_: _EvF().ev(e_).key() if e_ is not None else None  # noqa: E731
+    ok = tk(sli["env"].get("self.n_x_prev")) in (f"max(0,-1 + len({bp_}))", f"max(-1 + len({bp_}),0)") and tk(sli["env"].get("self.n_y_prev")) in (f"max(0,-1 + len({ap_}))", f"max(-1 + len({ap_}),0)")
     _ob(ctx, "F2", ii, "IIR: history lengths are len(B)-1 and len(A)-1", ok, "", "IirFilter:orders", IIR, "IirFilter.__init__")
 
 
@@ -122,8 +164,13 @@ def rule_F3(ctx):
     ok = any(isinstance(c, ast.Call) and norm(c) == "self.reset_state()" for c in own_nodes(ir))
     _ob(ctx, "F3", ir, "IIR: flushing resets the state", ok, "", "IirFilter.get_remaining:reset", IIR, "IirFilter.get_remaining")
     fi = _fn(ctx, FIR, "FirFilter.__init__", "F3")
-    t = full(fi)
-    ok = "self.m1 = self.N - self.m0 - 1" in t and "self.m0 = delay_offset" in t and "self.N = len(h)" in t and "self.x_prev = np.zeros(self.m1)" in t
+    from ..core.terms import Evaluator as _EvF3
+    slf = straightline_ex([st for st in fi.body if not (isinstance(st, ast.Expr) and isinstance(st.value, ast.Constant))])
+    hp_, dp_ = fi.args.args[1].arg, fi.args.args[2].arg
+    tk3 = lambda e_: _EvF3().ev(e_).key() if e_ is not None else None  # noqa: E731
+    envf = slf["env"]
+    ok = tk3(envf.get("self.N")) == f"len({hp_})" and tk3(envf.get("self.m0")) == dp_ and tk3(envf.get("self.m1")) == f"-1 + -1*{dp_} + len({hp_})" \
+        and tk3(envf.get("self.x_prev")) in (f"np.zeros(-1 + -1*{dp_} + len({hp_}))",) and tk3(envf.get("self.h")) == hp_
     _ob(ctx, "F3", fi, "FIR: N taps split into delay_offset future and N - delay_offset - 1 past samples", ok, "", "FirFilter.__init__:split", FIR, "FirFilter.__init__")
 
 
